@@ -1193,4 +1193,32 @@ example : WFASlash aslashOk := ⟨by decide⟩
 example : (validateAttesterSlashing aslashOk).verdict = .ACCEPT ∧ allHold (Spec.aslashConds aslashOk) = true ∧
     (validateAttesterSlashing aslashOk).marks = [call "MarkAttesterSlashings" [5, 9]] := by decide +kernel
 
+/-- `CheckAttestationSlot`, **regenerated from gossipval/common.go**, is exactly the hand model `attSlotOk` that the
+validator models call (so that part of the gossip model is the code itself), and it never panics for a non-zero
+`SLOTS_PER_EPOCH`. With `attSlotOk_eq_spec` this is the specification's attestation propagation window. -/
+theorem checkAttestationSlot_eq_model (spec : Spec) (mn mx slot : UInt64) (h : spec.SLOTS_PER_EPOCH ≠ 0) :
+    CheckAttestationSlot spec (clock mn mx) slot =
+      (if attSlotOk spec.SLOTS_PER_EPOCH spec.DENEB_FORK_EPOCH mn mx slot then .ok () else .err) := by
+  have hc1 : clock mn mx (500 : Int) = mx := by simp [clock]
+  have hc2 : clock mn mx (-(500 : Int)) = mn := by simp [clock]
+  have he : ∀ x, SlotToEpoch spec x = .ok (x / spec.SLOTS_PER_EPOCH) := by
+    intro x; simp [SlotToEpoch, Res.udiv, h]
+  unfold CheckAttestationSlot attSlotOk epochOf
+  simp only [hc1, hc2, he, bind, Res.bind]
+  by_cases hd : mx / spec.SLOTS_PER_EPOCH < spec.DENEB_FORK_EPOCH
+  · simp only [hd, decide_true, ite_true]
+    unfold slotSpanOk ATTESTATION_PROPAGATION_SLOT_RANGE
+    rcases checkSlotSpan_total (clock mn mx) slot 32 with h2 | h2 <;> simp [h2]
+  · simp only [hd, decide_false]
+    by_cases hs : slot > mx
+    · simp [hs]
+    · simp only [hs, decide_false]
+      by_cases h1 : (slot / spec.SLOTS_PER_EPOCH == mn / spec.SLOTS_PER_EPOCH ||
+          (mn / spec.SLOTS_PER_EPOCH != 0 && slot / spec.SLOTS_PER_EPOCH == mn / spec.SLOTS_PER_EPOCH - 1)) = true
+      · simp [h1]
+      · by_cases h2 : (slot / spec.SLOTS_PER_EPOCH == mx / spec.SLOTS_PER_EPOCH ||
+            (mx / spec.SLOTS_PER_EPOCH != 0 && slot / spec.SLOTS_PER_EPOCH == mx / spec.SLOTS_PER_EPOCH - 1)) = true
+        · simp [h1, h2]
+        · simp [h1, h2]
+
 end Zrnt.Proofs.C12
